@@ -1,1 +1,187 @@
-From OPF Require Import Model.Sup.
+(* C02: "The prototypes selected by supervised (and semi-supervised) training are precisely
+   the endpoints of those arcs of some minimum spanning tree of the complete labelled
+   training graph that join samples of different classes; when all pairwise distances are
+   distinct the tree, and hence the prototype set, is unique.  Every class present
+   contributes at least one prototype, and every prototype keeps cost 0 and its own label
+   after training."  (The last clause, after training, belongs to C01.)
+
+   Model: [find_prototypes] of Model/Sup.v (= SupervisedOPF._find_prototypes), executed at
+   W := Z, on the fresh subgraph [nodes_init zero labels].  "Minimum spanning tree" is
+   stated in its order-only (bottleneck / minimax) form, which is meaningful on the
+   IEEE-order encoding of floats; vocabulary in Spec/Paths.v and Spec/Trees.v. *)
+From OPF Require Import Proofs.HeapPrelude Base.Lists Model.Heap Model.Sup Spec.Paths Spec.Trees
+  Proofs.PrimGraph Proofs.PrimWeight Proofs.PrimMain.
+
+(* The predecessor map left by the pass is a spanning tree rooted at node 0: every other
+   node has a parent that was removed from the heap before it ([ord] is the removal
+   order), hence following [pred] from any node reaches 0. *)
+Theorem C02_prim_spanning_tree :
+  forall (zero top : Z) (n : nat) (w : nat -> nat -> Z) (labels : list nat),
+    1 <= n -> length labels = n ->
+    (forall p q, p < n -> q < n -> p <> q -> (w p q < top)%Z) ->
+    let nd := find_prototypes Z.ltb top n w (nodes_init zero labels) in
+    let pred := fun q => nth q (n_pred nd) None in
+    pred 0 = None /\
+    (exists ord, Permutation ord (seq 0 n) /\
+       forall q, 0 < q < n -> exists p, pred q = Some p /\ p < n /\ before ord p q) /\
+    (forall q, q < n -> root_of pred q 0).
+Proof. exact init_prim_spanning_tree. Qed.
+
+(* Any two nodes are joined by a (simple) path of tree arcs. *)
+Theorem C02_prim_tree_connected :
+  forall (zero top : Z) (n : nat) (w : nat -> nat -> Z) (labels : list nat),
+    1 <= n -> length labels = n ->
+    (forall p q, p < n -> q < n -> p <> q -> (w p q < top)%Z) ->
+    let nd := find_prototypes Z.ltb top n w (nodes_init zero labels) in
+    let pred := fun q => nth q (n_pred nd) None in
+    forall u v, u < n -> v < n -> exists tp, tree_path_rel n pred u v tp.
+Proof. exact init_prim_tree_connected. Qed.
+
+(* Minimum spanning tree, order-only form: every tree path is a minimax path of the
+   complete graph ([m] is the value of a path without arcs, any number). *)
+Theorem C02_prim_minimax_tree :
+  forall (zero top : Z) (n : nat) (w : nat -> nat -> Z) (labels : list nat),
+    1 <= n -> length labels = n ->
+    (forall p q, p < n -> q < n -> p <> q -> (w p q < top)%Z) ->
+    (forall p q, p < n -> q < n -> w p q = w q p) ->
+    let nd := find_prototypes Z.ltb top n w (nodes_init zero labels) in
+    let pred := fun q => nth q (n_pred nd) None in
+    forall (m : Z) u v tp pi,
+      tree_path_rel n pred u v tp -> path_from_to n u v pi ->
+      (pathmax w m tp <= pathmax w m pi)%Z.
+Proof. exact init_prim_minimax_tree. Qed.
+
+(* Cycle property: no arc on the tree path between u and v is heavier than the arc (u, v). *)
+Theorem C02_prim_cycle_optimal :
+  forall (zero top : Z) (n : nat) (w : nat -> nat -> Z) (labels : list nat),
+    1 <= n -> length labels = n ->
+    (forall p q, p < n -> q < n -> p <> q -> (w p q < top)%Z) ->
+    (forall p q, p < n -> q < n -> w p q = w q p) ->
+    let nd := find_prototypes Z.ltb top n w (nodes_init zero labels) in
+    let pred := fun q => nth q (n_pred nd) None in
+    forall u v tp, u < n -> v < n -> tree_path_rel n pred u v tp ->
+    forall a b, arc_on tp a b -> (w a b <= w u v)%Z.
+Proof. exact init_prim_cycle_optimal. Qed.
+
+(* The prototypes are exactly the endpoints of the class-crossing tree arcs. *)
+Theorem C02_prototypes_exact :
+  forall (zero top : Z) (n : nat) (w : nat -> nat -> Z) (labels : list nat),
+    1 <= n -> length labels = n ->
+    (forall p q, p < n -> q < n -> p <> q -> (w p q < top)%Z) ->
+    let nd := find_prototypes Z.ltb top n w (nodes_init zero labels) in
+    let pred := fun q => nth q (n_pred nd) None in
+    forall q, q < n ->
+      (nth q (n_status nd) false = true <->
+       exists r, (pred q = Some r \/ pred r = Some q) /\ r < n /\
+                 nth q labels 0 <> nth r labels 0).
+Proof. exact init_prototypes_exact. Qed.
+
+(* Every class present contributes a prototype (as soon as two classes are present). *)
+Theorem C02_every_class_has_prototype :
+  forall (zero top : Z) (n : nat) (w : nat -> nat -> Z) (labels : list nat),
+    1 <= n -> length labels = n ->
+    (forall p q, p < n -> q < n -> p <> q -> (w p q < top)%Z) ->
+    let nd := find_prototypes Z.ltb top n w (nodes_init zero labels) in
+    (exists a b, a < n /\ b < n /\ nth a labels 0 <> nth b labels 0) ->
+    forall q, q < n ->
+      exists s, s < n /\ nth s (n_status nd) false = true /\ nth s labels 0 = nth q labels 0.
+Proof. exact init_every_class_has_prototype. Qed.
+
+Theorem C02_prototypes_nonempty :
+  forall (zero top : Z) (n : nat) (w : nat -> nat -> Z) (labels : list nat),
+    1 <= n -> length labels = n ->
+    (forall p q, p < n -> q < n -> p <> q -> (w p q < top)%Z) ->
+    let nd := find_prototypes Z.ltb top n w (nodes_init zero labels) in
+    (exists a b, a < n /\ b < n /\ nth a labels 0 <> nth b labels 0) ->
+    exists s, s < n /\ nth s (n_status nd) false = true.
+Proof. exact init_prototypes_nonempty. Qed.
+
+(* The predecessor map is a rooted spanning tree in the sense of Spec/Trees.v, so that the
+   two theorems about arbitrary spanning trees below apply to it. *)
+Theorem C02_prim_spanning_parent_map :
+  forall (zero top : Z) (n : nat) (w : nat -> nat -> Z) (labels : list nat),
+    1 <= n -> length labels = n ->
+    (forall p q, p < n -> q < n -> p <> q -> (w p q < top)%Z) ->
+    let nd := find_prototypes Z.ltb top n w (nodes_init zero labels) in
+    spanning_parent_map n (fun q => nth q (n_pred nd) None).
+Proof. exact init_prim_spanning_parent_map. Qed.
+
+(* Uniqueness over abstract spanning trees (parent maps rooted anywhere): with pairwise
+   distinct weights, two spanning trees whose tree paths are minimax paths have the same
+   arcs. *)
+Theorem C02_cycle_optimal_unique :
+  forall (n : nat) (w : nat -> nat -> Z) (pred1 pred2 : nat -> option nat),
+    distinct_weights n w ->
+    spanning_parent_map n pred1 -> minimax_paths n w (tree_arc pred1) ->
+    spanning_parent_map n pred2 -> minimax_paths n w (tree_arc pred2) ->
+    forall u v, u < n -> v < n -> u <> v -> (tree_arc pred1 u v <-> tree_arc pred2 u v).
+Proof. exact cycle_optimal_unique. Qed.
+
+(* Minimum total weight (integer weights): a spanning tree whose tree paths are minimax
+   paths weighs no more than any spanning tree; in particular the tree of the pass. *)
+Theorem C02_cycle_optimal_is_minimum :
+  forall (n : nat) (w : nat -> nat -> Z) (predT predS : nat -> option nat),
+    (forall p q, p < n -> q < n -> w p q = w q p) ->
+    spanning_parent_map n predT -> minimax_paths n w (tree_arc predT) ->
+    spanning_parent_map n predS ->
+    (tree_weight n w predT <= tree_weight n w predS)%Z.
+Proof. exact cycle_optimal_is_minimum. Qed.
+
+Theorem C02_prim_minimum_weight :
+  forall (zero top : Z) (n : nat) (w : nat -> nat -> Z) (labels : list nat),
+    1 <= n -> length labels = n ->
+    (forall p q, p < n -> q < n -> p <> q -> (w p q < top)%Z) ->
+    (forall p q, p < n -> q < n -> w p q = w q p) ->
+    let nd := find_prototypes Z.ltb top n w (nodes_init zero labels) in
+    forall predS, spanning_parent_map n predS ->
+      (tree_weight n w (fun q => nth q (n_pred nd) None) <= tree_weight n w predS)%Z.
+Proof. exact init_prim_minimum_weight. Qed.
+
+(* Uniqueness, most general form: with pairwise distinct weights, two connected arc
+   relations on 0..n-1 all of whose simple paths are minimax paths have the same arcs. *)
+Theorem C02_minimax_arcs_unique :
+  forall (n : nat) (w : nat -> nat -> Z),
+    distinct_weights n w ->
+    forall R1 R2 : nat -> nat -> Prop,
+    connected_by n R1 -> minimax_paths n w R1 ->
+    connected_by n R2 -> minimax_paths n w R2 ->
+    forall u v, u < n -> v < n -> u <> v -> (R1 u v <-> R2 u v).
+Proof. exact minimax_arcs_unique. Qed.
+
+(* Uniqueness, as used downstream: with pairwise distinct weights the tree arcs, and hence
+   the prototypes, are characterised by the weights and labels alone (no reference to the
+   algorithm, the start node or the sample order). *)
+Theorem C02_prim_tree_characterised :
+  forall (zero top : Z) (n : nat) (w : nat -> nat -> Z) (labels : list nat),
+    1 <= n -> length labels = n ->
+    (forall p q, p < n -> q < n -> p <> q -> (w p q < top)%Z) ->
+    (forall p q, p < n -> q < n -> w p q = w q p) ->
+    distinct_weights n w ->
+    let nd := find_prototypes Z.ltb top n w (nodes_init zero labels) in
+    let pred := fun q => nth q (n_pred nd) None in
+    forall u v, u < n -> v < n -> u <> v ->
+      (tree_arc pred u v <-> sole_minimax_arc n w u v).
+Proof. exact init_prim_tree_characterised. Qed.
+
+Theorem C02_prototypes_characterised :
+  forall (zero top : Z) (n : nat) (w : nat -> nat -> Z) (labels : list nat),
+    1 <= n -> length labels = n ->
+    (forall p q, p < n -> q < n -> p <> q -> (w p q < top)%Z) ->
+    (forall p q, p < n -> q < n -> w p q = w q p) ->
+    distinct_weights n w ->
+    let nd := find_prototypes Z.ltb top n w (nodes_init zero labels) in
+    forall q, q < n ->
+      (nth q (n_status nd) false = true <->
+       exists r, r < n /\ nth q labels 0 <> nth r labels 0 /\ sole_minimax_arc n w q r).
+Proof. exact init_prototypes_characterised. Qed.
+
+(* Frame facts needed by the competition proof (C01). *)
+Theorem C02_find_prototypes_lengths :
+  forall (zero top : Z) (n : nat) (w : nat -> nat -> Z) (labels : list nat),
+    1 <= n -> length labels = n ->
+    (forall p q, p < n -> q < n -> p <> q -> (w p q < top)%Z) ->
+    let nd := find_prototypes Z.ltb top n w (nodes_init zero labels) in
+    length (n_cost nd) = n /\ length (n_pred nd) = n /\ length (n_status nd) = n /\
+    n_label nd = labels /\ n_plabel nd = repeat 0 n /\
+    n_relevant nd = repeat false n /\ n_order nd = [].
+Proof. exact init_find_prototypes_lengths. Qed.
